@@ -53,6 +53,8 @@ type Contract struct {
 	Uses     []string // lemma: names of earlier lemmas used as hypotheses
 	Witnesses []*Witness // existentially quantified ghost values of the postcondition
 	Writes   []string   // lib: pointer parameters whose pointee is overwritten with an unconstrained value
+	Vars     map[string][]varEntry // recorded variable tables ("//@ vars F: name=Type#k ..."), see rename.go
+	Ren      map[string]string     // contract name -> current source name, for variables renamed since the contract was written
 	After    map[string][]string // post label -> earlier post labels assumed (at the same exit) when proving it
 	Applies  []*Clause  // lemma: explicit instances of earlier lemmas, e.g. KVol_tail(s, bech32(p), s2, bech32(p2))
 	Hints    []*Clause  // lemma: terms mentioned so that axiom patterns can fire (no new facts)
@@ -68,7 +70,7 @@ type Witness struct {
 
 var clauseKW = map[string]bool{"func": true, "lib": true, "lemma": true, "props": true, "theory": true, "requires": true, "ensures": true, "preserves": true,
 	"modifies": true, "loop": true, "returns": true, "inline": true, "noinline": true, "pure": true, "maypanic": true, "trusted": true,
-	"results": true, "fresh": true, "uses": true, "end": true, "witness": true, "hint": true, "assumes": true, "writes": true, "apply": true, "after": true}
+	"results": true, "fresh": true, "uses": true, "end": true, "witness": true, "hint": true, "assumes": true, "writes": true, "apply": true, "after": true, "vars": true}
 
 var labelRe = regexp.MustCompile(`^\s*(\[[A-Za-z0-9_, ]+\])?\s*([A-Za-z_][A-Za-z0-9_]*)\s*:([^:=].*|$)`)
 var tagOnlyRe = regexp.MustCompile(`^\s*\[([A-Za-z0-9_, ]+)\]\s*(.*)$`)
@@ -211,6 +213,15 @@ func parseContractFile(path, pkgPath string) ([]*Contract, error) {
 				return nil, fmt.Errorf("%s:%d: %v", path, r.line, err)
 			}
 			cur.Witnesses = append(cur.Witnesses, &Witness{Name: head[:j], Sort: strings.TrimSpace(head[j:]), E: e, Src: r.text})
+		case "vars":
+			i := strings.Index(r.text, ":")
+			if i <= 0 {
+				return nil, fmt.Errorf("%s:%d: malformed vars clause", path, r.line)
+			}
+			if cur.Vars == nil {
+				cur.Vars = map[string][]varEntry{}
+			}
+			cur.Vars[strings.TrimSpace(r.text[:i])] = decodeVars(r.text[i+1:])
 		case "after":
 			// "after <post> assume <post> <post> ...": the named posts, stated earlier and proved on their own, are lemmas for this one
 			fs := strings.Fields(strings.ReplaceAll(r.text, ",", " "))
